@@ -101,7 +101,8 @@ def run(names_path):
         print(f"  [{'ok' if rej else 'FAIL'}] serializer trace with a corrupted {name} rejected")
         ok &= rej
     # the full-copy reader trace: a read length, an alignment unit, the returned value, the final position
-    rraw = [x for x in harness(["record", "7", "40", "20"]).splitlines() if re.search(r'"ev":\s*"r(init|d|align|ret)"', x)]
+    rraw = [x for x in harness(["record", "7", "40", "20"]).splitlines() if re.search(r'"ev":\s*"r(init|d|align|ret)"', x)
+            and not re.search(r'"ev":\s*"rd".*"len":\s*0\b', x)]
     rcfg = os.path.join(WORK, tag, "tread.cfg")
     write_cfg(rcfg, dict(consts, BugCFlowTags=False, BugOptTag=False, BugArray0=False, BugZstSlice=False, BugZstNoAlign=False,
                          ReaderGrain="call", ReaderFaulty=False, MaxRFaults=0),
